@@ -28,6 +28,7 @@ type c18Case struct {
 	Chunk  int        `json:"chunk"`
 	Procs  int        `json:"procs"`
 	Stmt   bool       `json:"stmt_yields,omitempty"`
+	IOQ    int        `json:"io_quirks,omitempty"` // bit 0: final bytes arrive with io.EOF; bit 1: Read sometimes returns (0, nil)
 }
 
 type c18 struct{}
@@ -93,6 +94,7 @@ func (c18) Gen(t *Tape, tier string, run int) interface{} {
 			c.Inputs[c.FaultI].N = 20 + t.Draw("work", 30)
 		}
 	}
+	c.IOQ = t.Pick("work", 0, 0, 1, 2, 3)
 	return c
 }
 
@@ -219,7 +221,7 @@ func (p c18) Exec(x *Exec, ci interface{}) *Verdict {
 	}
 	var files []*File
 	for i, img := range imgs {
-		f := &File{X: x, Name: fmt.Sprintf("in%d", i), Data: img, Chunk: c.Chunk}
+		f := &File{X: x, Name: fmt.Sprintf("in%d", i), Data: img, Chunk: c.Chunk, EOFWithData: c.IOQ&1 != 0, ZeroReads: c.IOQ&2 != 0}
 		if c.Fault != nil && c.FaultI == i {
 			f.Faults = []Fault{*c.Fault}
 		}
@@ -231,7 +233,7 @@ func (p c18) Exec(x *Exec, ci interface{}) *Verdict {
 	var hdr *sam.Header
 	est := 300
 	for _, img := range imgs {
-		est += estReadSteps(len(img), c.Chunk, "read+seek", 0) + 100
+		est += estReadSteps(len(img), c.Chunk, "read+seek", 0)*3/2 + 100
 	}
 	res := x.RunSim("merge", est+30*total, func() {
 		var rs []*bam.Reader
@@ -468,6 +470,11 @@ func (c18) Shrinks(ci interface{}) []interface{} {
 	if c.Chunk != 0 && c.Fault == nil {
 		n := *c
 		n.Chunk = 0
+		out = append(out, &n)
+	}
+	if c.IOQ != 0 {
+		n := *c
+		n.IOQ = 0
 		out = append(out, &n)
 	}
 	return out
